@@ -82,9 +82,21 @@ func checkVectorisedEqualsSingle(c *core.Ctx, run *MRun, kindPrefix string) {
 	}
 	states0 := From2(p.States)
 	params0 := From2(p.Params)
-	inSh := p.Inputs.Shape()
+	inSh := cpInts(p.Inputs.Shape())
+	parSh, stSh, outSh := cpInts(p.Params.Shape()), cpInts(p.States.Shape()), cpInts(p.Outputs.Shape())
 	inputs0 := From3(p.Inputs, inSh[0], inSh[1], inSh[2])
-	out := p.Exec()
+	p.Model.Run(p.Inputs, p.States, p.Outputs)
+	for _, chk := range []struct {
+		name   string
+		before []int
+		after  []int
+	}{{"inputs", inSh, p.Inputs.Shape()}, {"parameters", parSh, p.Params.Shape()}, {"states", stSh, p.States.Shape()}, {"outputs", outSh, p.Outputs.Shape()}} {
+		if !sameShape(chk.before, chk.after) {
+			c.Violate(kindPrefix+"array-shape-modified", model, fmt.Sprintf("Run changed the shape of the caller's %s array from %v to %v", chk.name, chk.before, chk.after))
+			return
+		}
+	}
+	out := p.Collect()
 
 	// inputs / parameters untouched
 	if d, bad := diffBits2(params0, From2(p.Params)); bad {
